@@ -4,9 +4,15 @@ EXPLANATION = ("Cache transparency by structure: the key type is the complete Ve
                "Pattern, Lookahead, TerminalID, ScannerModeID) are derived and read every field; path-sensitive abstract interpretation of "
                "ScannerCache::get shows hit => clone of the entry for the requested key, failed compile => no insert, successful compile "
                "=> insert(key from the same modes, that result); entries are never mutated; the cached and uncached constructors have "
-               "equal call structure; both build functions go through the cache with the builder's own modes.")
+               "equal call structure; both build functions go through the cache with the builder's own modes. A failing build must fail with "
+               "an Err, not a panic (the lock would be poisoned): build-path panic inventory C15.h.")
 RULES = {"C13.a", "C13.b", "C13.c", "C13.d", "C13.e", "C13.f"}
 
 
 def check(ctx):
     sharing.analyze(ctx, RULES)
+    # 'a build that fails returns an error without affecting later builds': the compilation runs under the cache's write
+    # lock, so a panic there (instead of an Err) poisons the lock and every later build panics: the build-path panic
+    # inventory (with the partition invariants its reasons cite) and the build path's error discipline belong here as well
+    from . import panics
+    panics.analyze(ctx, {"C15.h"})
